@@ -234,7 +234,7 @@ def scan_imports(path):
                 pass
     # direct process control through os
     src = open(path).read()
-    for needle in ("os.fork", "os.wait(", "os.pipe", "os.abort", "os.exec", "os.spawn", "os.killpg", "signal.alarm", "signal.setitimer",
+    for needle in ("resource.setrlimit", "os.setsid", "os.setpg", "os.dup2", "os.closerange", "os.fork", "os.wait(", "os.pipe", "os.abort", "os.exec", "os.spawn", "os.killpg", "signal.alarm", "signal.setitimer",
                    "signal.pthread_", "signal.raise_signal", "signal.sigwait", "signal.pause"):
         if needle in src:
             bad.append(needle)
